@@ -383,6 +383,62 @@ def run(prog: Program) -> Results:
                     res.add("R-C03-8", (f.key, "layer slot not consumed on every path", key), f.loc(lp),
                             f"{f.key}: the loop over let layers reads `{key}` of the layer only on some paths (or never): for the layers "
                             f"that take the other path the comments stored there are dropped, and another layer's are shown instead")
+    # ---------------------------------------------------------------- R-C03-9 a trivia-consuming branch is not dead code
+    r9 = res.rule("R-C03-9", "no trivia consumer is dead code: when a boolean parameter of a renderer helper decides whether the "
+                  "`before`/`after` (or comment) slots of a node are consumed, both values reach it from its call sites "
+                  "(a flag that is false at every call, directly or by being passed through in recursion, silently drops the slots)",
+                  floor=1)
+    all_fns = prog.all_functions()
+    for f in rfs:
+        for g in [f] + list(f.nested.values()):
+            a = g.node.args
+            params = [x.arg for x in a.posonlyargs + a.args + a.kwonlyargs]
+            defaults = dict(zip([x.arg for x in (a.posonlyargs + a.args)][len(a.posonlyargs + a.args) - len(a.defaults):], a.defaults))
+            defaults.update({x.arg: d for x, d in zip(a.kwonlyargs, a.kw_defaults) if d is not None})
+            for p_ in params:
+                d = defaults.get(p_)
+                if not (isinstance(d, ast.Constant) and isinstance(d.value, bool)):
+                    continue
+                guarded = []
+                for n in walk_no_nested(g.node):
+                    if isinstance(n, ast.If) and norm(n.test) in (p_, f"not {p_}"):
+                        live_when = norm(n.test) == p_
+                        for br, when in ((n.body, live_when), (n.orelse, not live_when)):
+                            reads = [x for st in br for x in ast.walk(st) if isinstance(x, ast.Attribute) and x.attr in ("before", "after")
+                                     and isinstance(x.ctx, ast.Load)]
+                            if reads:
+                                guarded.append((n, when, reads))
+                if not guarded:
+                    continue
+                # values reaching the parameter
+                vals = set()
+                unknown = False
+                scope_fns = [g.parent] + list(g.parent.nested.values()) if g.parent is not None else all_fns
+                for h in scope_fns:
+                    for c in ast.walk(h.node):
+                        if isinstance(c, ast.Call) and isinstance(c.func, ast.Name) and c.func.id == g.node.name:
+                            arg = next((k.value for k in c.keywords if k.arg == p_), None)
+                            if arg is None:
+                                pos = [x.arg for x in a.posonlyargs + a.args]
+                                if p_ in pos and pos.index(p_) < len(c.args):
+                                    arg = c.args[pos.index(p_)]
+                            if arg is None:
+                                vals.add(d.value)
+                            elif isinstance(arg, ast.Constant) and isinstance(arg.value, bool):
+                                vals.add(arg.value)
+                            elif isinstance(arg, ast.Name) and arg.id == p_ and any(c is y for y in ast.walk(g.node)):
+                                pass  # passed through in recursion: adds no new value
+                            else:
+                                unknown = True
+                r9.instances += 1
+                for n, when, reads in guarded:
+                    ok = unknown or when in vals or not vals
+                    r9.ob(ok, {"helper": g.key, "flag": p_, "values_at_call_sites": sorted(vals), "consumer_needs": when})
+                    if not ok:
+                        res.add("R-C03-9", (g.key, "trivia consumer is dead", p_), g.loc(n),
+                                f"{g.key}: the branch that consumes `{norm(reads[0])}` runs only when `{p_}` is {when}, but every call "
+                                f"passes {sorted(vals)} (recursive calls hand the flag through): comments stored on nested nodes are "
+                                f"never rendered")
     res.tables.append(f"sa/tables/grammar.py: {len(PRODUCTIONS)} productions, {len(GENERIC_CLASSES)} generic walkers")
     res.assumptions = ["relative order of two comments routed into different slots of the same gap is a value-level fact and is not decided"]
     return res
